@@ -557,7 +557,7 @@ func runHTTPOnce(c *vlib.Cases, hc httpCfg, mu *sync.Mutex, last bool) bool {
 						b.Taken()
 					}
 				}
-				r := stack.Do(s.Addr, stack.Request("POST", path, s.Addr, [][2]string{{"Content-Type", "application/json"}}, body, httpSeq%2 == 0), 5*time.Second)
+				r := stack.Do(s.Addr, stack.Request("POST", path, s.Addr, [][2]string{{"Content-Type", "application/json"}}, body, httpSeq%2 == 0), 5*time.Second+time.Duration(len(body)>>20)*10*time.Second)
 				backend := -1
 				nb := 0
 				for i, b := range bes {
